@@ -225,13 +225,12 @@ func (p *provider) Close() error {
 		}
 	}
 
-	// Close root scope
+	// Close root scope. The field itself is left in place: concurrent Get*
+	// calls read it without synchronisation and must find a (closed) scope.
 	if p.rootScope != nil {
 		if err := p.rootScope.Close(); err != nil {
 			errors = append(errors, fmt.Errorf("root scope: %w", err))
 		}
-
-		p.rootScope = nil
 	}
 
 	// Dispose all singleton disposables
